@@ -22,7 +22,7 @@ Structural necessary conditions, each of which breaks the behaviour when violate
 Not decided: that conditions sit at even and branches at odd positions, and the
 polarity of the accumulator tests (value-level).
 """
-from .core import callee_of, callee_path, strip_refs, show_expr, op_const
+from .core import callee_of, callee_path, strip_refs, show_expr, op_const, expr_mentions
 from .engine import Inconclusive
 from .roles import Roles
 from .opfacts import Unit, max_calls_on_a_path, path_avoiding
@@ -140,6 +140,7 @@ def once_per_use(ctx, facts, roles, p, cfg, name, e, K2="K2", K3="K3"):
                             early = True
             ctx.check(early, K3 + ".skippable", "%s: the operand loop can be left after an evaluation (%s)" % (name, cfg),
                       "%s's loop over the operands has no early exit after evaluating an element" % name, where=b.where(), fn=b.key, nontrivial=True)
+    u.iter_blocks = iter_blocks
     return u
 
 
@@ -159,6 +160,10 @@ def run(ctx):
             ctx.check(e.table.role == "lazy", "K1.lazy", "%s is a lazy-table entry (%s)" % (e.key, cfg), "%r is in the %s table: all its operands are evaluated before it runs" % (e.key, e.table.role), where=facts.body(e.table.const_key).where())
         ctx.check(len({e_if.fn_key, e_and.fn_key, e_or.fn_key}) == 3, "K1.distinct", "if, and, or have their own implementations (%s)" % cfg, "two of if/and/or share one function", where=facts.body(e_if.table.const_key).where())
         p = P.Prov(roles).run()
+        # the lazy operation evaluator hands (data, stored operands) to the operator once and returns its result as it is:
+        # nothing between the table and the operator can fail, count or remember on its own
+        from .c04 import operator_receives_operand_list
+        operator_receives_operand_list(ctx, facts, roles, e_if.table, cfg, "K1")
         for name, e in (("if", e_if), ("and", e_and), ("or", e_or)):
             u = once_per_use(ctx, facts, roles, p, cfg, name, e)
             root = u.root
@@ -187,6 +192,16 @@ def run(ctx):
                         ctx.fail("K4.value-itself", "%s|const %s" % (name, item.split("::", 1)[1]), "%s returns the constant %s instead of an operand's value" % (name, item), where=b.where(bi, si), fn=b.key)
                 if not aggs:
                     ctx.ok("K4.value-itself", "%s constructs no JSON value (%s)" % (name, cfg), nontrivial=True)
+                # every successful result is (a plumbing of) an evaluation result: it mentions an evaluate call or the
+                # iteration that contains the per-element evaluation — never an operand taken as it stands in the rule
+                r0 = strip_refs(root.trace(0))
+                cands0 = [strip_refs(x) for x in r0[2]] if r0[0] == "phi" else [r0]
+                for c0 in cands0:
+                    if (c0[0] == "agg" and c0[1].get("variant") == "Err") or (c0[0] == "call" and c0[1] and "from_residual" in c0[1]["path"]):
+                        continue
+                    from_eval = expr_mentions(c0, lambda y: y[0] == "call" and y[1] and (y[1].get("key") in roles.evaluators or y[3] in u.iter_blocks))
+                    ctx.check(from_eval, "K4.result-is-evaluated", "%s: a successful result comes out of an evaluation (%s)" % (name, cfg),
+                              "%s can return %s — an operand as written in the rule (or something else that was never evaluated)" % (name, show_expr(c0)[:120]), where=root.where(), fn=root.key, nontrivial=True)
                 rt = p.tags.get((root.key, 0), set())
                 ctx.check("EVAL" in rt, "K4.returns-evaluated", "%s returns an evaluation result (%s)" % (name, cfg), "%s's result has provenance %s" % (name, sorted(rt)), where=root.where(), fn=root.key, nontrivial=True)
             else:
